@@ -412,6 +412,17 @@ func vOracleC01(c *vh.Case, res *vLkResult) *vLkDerived {
 			}
 		}
 		c.Check(ok, "cancelled-result-learned", "cancelled lookup returned a peer that was neither a seed nor named in any reply: %v", n.Names(R))
+		// an unreachable event that WAS received proves the failure had been processed (the state never leaves
+		// "unreachable"), so such a peer must not be returned, cancelled or not
+		var bad []string
+		for _, p := range R {
+			if d.F[p] {
+				bad = append(bad, n.Name(p))
+			}
+		}
+		if len(d.F) > 0 {
+			c.Check(len(bad) == 0, "cancelled-result-not-failed", "cancelled lookup returned peers already reported unreachable: %v", bad)
+		}
 		return d
 	}
 	// (2) R = the min(K,|L\F|) nearest of L\F
@@ -585,7 +596,7 @@ func vLkDescribe(c *vh.Case, res *vLkResult, d *vLkDerived) {
 func TestVerif_C01_lookup(t *testing.T) {
 	vh.Run(t, vh.Spec{Prop: "C01", Unit: "lookup", Quick: 3000, Thorough: 60000, CostMs: 25,
 		Rule: "PRNG networks (N 1-500, thorough up to 2000; K in {1,2,3,5,8,20}, alpha in {1,2,3,10}, beta in {1,2,3,K}; knowledge full/kbucket/sparse; 0-60% peers failing by dial/request/silence; liars adding self, duplicates, strangers, 200-entry lists; optional pure query filter; 20% cancelled at a PRNG instant), one GetClosestPeers each in virtual time; oracle over lookup events + simulated wire log; non-trivial = uncancelled, >= 2 hops and (>= 1 failure or more than K learned); distinct by (shape, behaviour mix, response arrival order)",
-		Clauses: []string{"at-most-k", "ascending", "seeds-are-k-nearest-of-table", "result-is-k-nearest-of-learned", "result-not-failed", "heard-is-filtered-answer", "unreachable-iff-failed", "waiting-then-contact", "asked-at-most-once", "cancelled-result-learned"}},
+		Clauses: []string{"at-most-k", "ascending", "seeds-are-k-nearest-of-table", "result-is-k-nearest-of-learned", "result-not-failed", "heard-is-filtered-answer", "unreachable-iff-failed", "waiting-then-contact", "asked-at-most-once", "cancelled-result-learned", "cancelled-result-not-failed"}},
 		func(c *vh.Case) {
 			sc := vGenLkScenario(c, false)
 			vSelfCheckDistance(c)
